@@ -413,6 +413,15 @@ func (p *parser) parsePrimary() (*Expr, error) {
 	case "ident":
 		return &Expr{Op: "ident", Name: t.text, Pos: t.pos}, nil
 	case "op":
+		if t.text == "[" && p.peek().kind == "op" && p.peek().text == "]" {
+			// slice type literal used as an argument, e.g. is(v, []byte)
+			p.next()
+			ty, err := p.parseTypeText()
+			if err != nil {
+				return nil, err
+			}
+			return &Expr{Op: "ident", Name: "[]" + ty, Pos: t.pos}, nil
+		}
 		if t.text == "(" {
 			// parenthesised expression, or pointer-type conversion (*T)(x)
 			x, err := p.parseBin(0)
